@@ -303,7 +303,7 @@ INT_W = [1, 1, 2, 3, 4, 5, 8]
 DYADIC_W = [0.25, 0.5, 0.75, 1.0, 1.5, 2.0, 3.0, 4.0]
 ANY_W = [0.1, 0.3, 0.7, 1.1, 2.5, 1 / 3]
 VTICKS = [0.125, 0.25, 0.5, 1.0, 2.0, 1, 2, 3, 0.1, 0.3, 0.001, 1.5]
-FAMILIES = ['random'] * 7 + ['static'] * 3 + ['ties'] * 3 + ['idle'] * 2 + ['edge'] * 4 + ['busyend'] * 2 + ['malformed'] + ['multi'] * 2
+FAMILIES = ['random'] * 7 + ['static'] * 3 + ['ties'] * 3 + ['idle'] * 2 + ['edge'] * 4 + ['busyend'] * 2 + ['malformed'] + ['multi'] * 2 + ['longbusy']
 
 
 def gen_multi(rng, cid, kind, aged=0.0):
@@ -413,6 +413,44 @@ def _gen_case(rng, cid, kind, family, share=None, rate=None):
         c['sources'].append(script)
         if rng.random() < 0.3:
             c['sources'].append([(rng.choice([0, ts, 3 * ts]), burst(rng.randint(1, 2)))])
+    elif family == 'longbusy':
+        # ONE busy period in which WFQ's virtual time grows beyond 1e6 (2e6, 4e6 ...): few packets, each so large that its transmission
+        # moves V by about 1e5.  "V and all F are reset to 0 only when the scheduler empties": in between F = max(F_prev, V) + cost holds
+        # whatever the magnitude of V.  The sharpest constellation: a light class `a` whose first packet arrives alone (it is transmitted
+        # first), so that its finish stamp 8*size/(rate*w_a) lies far ahead of V; `a` is then idle for a long stretch while the other
+        # classes stay backlogged, and returns with small packets while its F is still ahead of V: they are stamped F_a + cost and wait
+        # behind the packets of the others with smaller stamps.
+        cls = [k for k, _ in table]
+        w_of = dict(map(tuple, table))
+        a = min(cls, key=lambda k: (w_of[k], rng.random()))          # the lightest class
+        others = [k for k in cls if k != a] or [a]
+        wsum = sum(w for _, w in table)
+        fl_of = {k: [f for f, kk in f2c if kk == k] for k in cls}
+        # dv: growth of V per long packet while every class is backlogged (long packet = M units); ka long packets' worth for the first
+        # packet of `a`: its stamp F_a = dv*wsum*ka/w_a should lie beyond 1e6 while V at the end of its transmission (dv*ka) is below
+        target = rng.uniform(1.2e6, 3.5e6)
+        for dv in rng.sample([0.5e5, 1e5, 1e5, 2e5, 3e5], 5) + [0.25e5]:
+            ka = max(1, round(target * w_of[a] / (dv * wsum)))
+            if dv * ka < 0.9e6 and dv * wsum * ka / w_of[a] > 1.1e6:
+                break
+        M = max(1, int(dv * wsum / ts))
+        L = unit * M
+        fa, vta = dv * wsum * ka / w_of[a], dv * ka
+        g = dv * wsum / max(wsum - w_of[a], w_of[a])                  # growth of V per long packet once `a` is idle
+        jmin = max(1, int((1e6 - vta) / g) + 1)                       # long packets after which V has passed 1e6 ...
+        jmax = max(jmin, min(int((fa - vta) / g) - 1, jmin + 12))     # ... and not yet F_a
+        j = rng.randint(jmin, jmax)
+        first = [(rng.choice(fl_of[a]), L * ka)]
+        back = [(rng.choice(fl_of[rng.choice(others)]), L) for _ in range(min(60, j + rng.randint(3, 10)))]
+        t0 = rng.choice([0, 0, ts])
+        c['sources'].append([(t0, first), (rng.choice([0.5, 1, 2.5]) * ts, back)])      # `a` alone first: it is in transmission when the others arrive
+        script, d = [], t0 + ts * M * (ka + j + rng.choice([0.25, 0.5, 0.75]))
+        for _ in range(rng.randint(1, 3)):
+            script.append((d, [(rng.choice(fl_of[a]), unit * rng.choice([1, 2, 5, M // 10 + 1])) for _ in range(rng.choice([1, 1, 2, 3]))]))
+            d = ts * M * rng.choice([0.5, 1, 2, 3.25])
+        c['sources'].append(script)
+        if rng.random() < 0.4:
+            c['sources'].append([(ts * M * (rng.randint(2, 10) + 0.25), burst(rng.randint(1, 3), L))])
     elif family == 'edge':
         for _ in range(rng.randint(1, 3)):
             script = []
